@@ -650,9 +650,17 @@ func (r *Runtime) arrayproto_includes(call FunctionCall) Value {
 		searchElement = _positiveZero
 	}
 
+	// SameValueZero: a -0 element equals a +0 / -0 search element
+	sameValueZero := func(val Value) bool {
+		if val == _negativeZero {
+			val = _positiveZero
+		}
+		return searchElement.SameAs(val)
+	}
+
 	if arr := r.checkStdArrayObj(o); arr != nil {
 		for _, val := range arr.values[n:] {
-			if searchElement.SameAs(val) {
+			if sameValueZero(val) {
 				return valueTrue
 			}
 		}
@@ -662,7 +670,7 @@ func (r *Runtime) arrayproto_includes(call FunctionCall) Value {
 	for ; n < length; n++ {
 		idx := valueInt(n)
 		val := nilSafe(o.self.getIdx(idx, nil))
-		if searchElement.SameAs(val) {
+		if sameValueZero(val) {
 			return valueTrue
 		}
 	}
